@@ -338,15 +338,63 @@ def r5_split_sections(ctx, prog):
             r.ok(q, site, '%d critical section(s), none acts on a stale read' % len(sc), file=f['file'], line=sc[0][1])
 
 
+def r6_locking_mode(ctx, prog):
+    """Every guarantee of this property rests on the mutexes being real.  MutexFactory is a process-wide singleton that survives C_Finalize, so each C_Initialize has to set its
+    enabled flag itself: enable() when the application supplied mutex callbacks or allowed OS locking, disable() otherwise - never inherit what an earlier initialisation left."""
+    r = ctx.rule('C18.R6', 'C_Initialize switches locking on whenever the application asks for it (callbacks or CKF_OS_LOCKING_OK) and decides the mode on every path itself', floor=4, engine='E1 finite-domain evaluation')
+    f = prog.fn('SoftHSM::C_Initialize')
+    ctx.analysed(f)
+    p0 = param_name(f, 0)
+    OSL = macro(prog, 'CKF_OS_LOCKING_OK')
+    cases = [('no arguments', {p0: 0}, 'disable'),
+             ('no callbacks, CKF_OS_LOCKING_OK', {p0: 1, 'cb': 0, 'flags': OSL}, 'enable'),
+             ('no callbacks, no flag', {p0: 1, 'cb': 0, 'flags': 0}, 'disable'),
+             ('four callbacks, no flag', {p0: 1, 'cb': 1, 'flags': 0}, 'enable'),
+             ('four callbacks, CKF_OS_LOCKING_OK', {p0: 1, 'cb': 1, 'flags': OSL}, 'enable')]
+    for name, d, want in cases:
+        cenv = {'isInitialised': 0, p0: d[p0], re.compile(r'\w+(->|\.)pReserved'): 0}
+        if d[p0]:
+            cenv[re.compile(r'\w+(->|\.)(CreateMutex|DestroyMutex|LockMutex|UnlockMutex)')] = d['cb']
+            cenv[re.compile(r'\w+(->|\.)flags')] = d['flags']
+        o = Outcomes(f, prog, cenv=cenv, record_calls={'enable', 'disable'})
+        o.CAP = 96
+        o.LOOP_ROUNDS = 1
+        o.go()
+        r.paths += len(o.outcomes)
+        okp = [oc for oc in o.outcomes if oc['ret'] == 'CKR_OK']
+        site = 'locking mode: %s' % name
+        if not okp:
+            r.undecided(f['qname'], site, 'no successful path under this assignment', file=f['file'], line=f['line'])
+            continue
+        bad = None
+        for oc in okp:
+            sw = [e[1] for e in oc['events'] if e[0] == 'call' and e[1] in ('enable', 'disable')]
+            if not sw:
+                bad = ('the library initialises without calling MutexFactory::enable() or disable(): the mode of an earlier C_Initialize in this process stays in force', oc)
+            elif sw[-1] != want:
+                bad = ('the library initialises with MutexFactory::%s(), but the application %s' % (sw[-1], 'asked for locking' if want == 'enable' else 'declared it does not use threads'), oc)
+            if bad:
+                break
+        if bad and want == 'enable':
+            r.violation(f['qname'], site, bad[0] + ': every MutexLocker is a no-op although several threads may call in', file=f['file'], line=bad[1]['line'], path=bad[1]['path'])
+        elif bad and 'without calling' in bad[0]:
+            r.violation(f['qname'], site, bad[0], file=f['file'], line=bad[1]['line'], path=bad[1]['path'])
+        else:
+            r.ok(f['qname'], site, '%s on %d successful paths' % (want if not bad else 'enable (stricter than required)', len(okp)), file=f['file'], line=f['line'])
+
+
 def run(ctx):
     prog = ctx.prog('ossl-file')
     r1_discipline(ctx, prog)
     r23_order(ctx, prog)
     r4_callbacks(ctx, prog)
     r5_split_sections(ctx, prog)
+    r6_locking_mode(ctx, prog)
 
 
 MUTANTS = [
+    dict(name='initialize-callbacks-installed-not-enabled', rule='C18.R6', file='src/lib/SoftHSM.cpp', after='CK_RV SoftHSM::C_Initialize(',
+         old='\t\t\tMutexFactory::i()->setUnlockMutex(args->UnlockMutex);\n\t\t\tMutexFactory::i()->enable();\n', new='\t\t\tMutexFactory::i()->setUnlockMutex(args->UnlockMutex);\n'),
     dict(name='token-decrypt-narrowed-lock', rule='C18.R1', file='src/lib/slot_mgr/Token.cpp', after='bool Token::decrypt(const ByteString &encrypted, ByteString &plaintext)',
          old='\t// Lock access to the token\n\tMutexLocker lock(tokenMutex);\n\n\tif (sdm == NULL) return false;\n\n\treturn sdm->decrypt(encrypted,plaintext);',
          new='\tSecureDataManager* mgr = NULL;\n\t{\n\t\tMutexLocker lock(tokenMutex);\n\t\tmgr = sdm;\n\t}\n\tif (mgr == NULL) return false;\n\treturn mgr->decrypt(encrypted,plaintext);'),
